@@ -6,6 +6,7 @@ Tie: translation + exhaustive tables run through fresh real GlobalProfiler objec
 (in-process), the real show() under all 16 write_config subsets, and whole interpreter
 runs with a real LINE_PROFILE variable and the real atexit hook (subprocess)."""
 import itertools
+import os
 import json
 import shutil
 
@@ -533,7 +534,7 @@ def run(tier, seed):
     if gen.get('GlobalProfiler.v'):
         res.obl['failures'].append('translator refused the source: ' + gen['GlobalProfiler.v'])
     impl = core.build_impl()
-    tmp = core.SCRATCH_ROOT / 'tmp' / 'c14'
+    tmp = core.SCRATCH_ROOT / 'tmp' / ('c14-%d-%d' % (seed, os.getpid()))      # concurrent checks must not share it
     tmp.mkdir(parents=True, exist_ok=True)
     cases = gen_cases(tier, rnd)
     cases['kernprof'] = kp_cases(tier)
@@ -680,7 +681,7 @@ def replay(path):
     impl = core.build_impl()
     c = dict(data['case'])
     kind = c.pop('kind', 'hist')
-    tmp = core.SCRATCH_ROOT / 'tmp' / 'c14r'
+    tmp = core.SCRATCH_ROOT / 'tmp' / ('c14r-%d' % os.getpid())
     tmp.mkdir(parents=True, exist_ok=True)
     try:
         cases = dict(hist=[], handoff=[], model_only=[], show=[], sub=[], subkp=[], subops=[], kernprof=[])
